@@ -6,6 +6,25 @@ ROOT = os.path.dirname(os.path.dirname(os.path.abspath(__file__)))
 
 # id -> (category, technique, text, note, design_ref)
 CHECKS = {
+ "C01": ("fault_enumeration", "obligation ledger over the recorded trace of the real ReconnectClient against a fault-injecting broker model; sentinel quiescence / certified-stuck",
+         "Every single cut (4 kinds) at every request-packet ordinal of 10 canonical workloads x configurations, exhaustive cut pairs on short workloads (thorough), sampled pairs/triples, seeded random plans up to 6 faults incl. refused/absent CONNACK and dial failures, and steered submissions while the reconnect goroutine is inside the Dialer / a ConnectOption. Every accepted QoS>=1 publish, subscribe, unsubscribe must have an acknowledgement sent and consumed by quiescence.",
+         "Trusted: broker model as specification of the peer; fault model of DESIGN.md 2.4; quiescence argument (two sentinels, FIFO task goroutine). Eventually is restated as quiescence after faults stop / certified stuck.", "5/C01"),
+ "C02": ("fault_enumeration", "broker delivery-log count per message tag (exactly-once) over exhaustive single and pair cut sweeps",
+         "QoS 2 workloads with 1-3 messages against a session-keeping broker model with both receiver methods; all single cuts and all pairs of cuts of 4 kinds over every CONNECT/PUBLISH/PUBREL ordinal, random plans beyond; delivery count must be exactly 1 and nothing may be transmitted for a message after its PUBCOMP was consumed and the client moved on.",
+         "Trusted: broker model implements the MQTT 3.1.1 QoS 2 receiver rules (methods A and B).", "5/C02"),
+ "C03": ("fault_enumeration", "order monitors (per-connection PUBLISH order, global first-transmission order, broker first-delivery order) over cut sweeps",
+         "Single-submitter workloads; all single cuts, exhaustive pairs on short workloads, sampled pairs/triples, random plans; R1/R2/R3 of DESIGN.md checked on every connection of every run.",
+         "Trusted: tags identify messages; default queued mode.", "5/C03"),
+ "C08": ("fault_enumeration", "broker subscription table at quiescence vs fold of application calls; explained-SUBSCRIBE rule per connection",
+         "Subscribe/Unsubscribe histories with repeated filters, changed QoS, duplicates inside a call, absent filters, calls before Connect and during outages; session kept/lost x AlwaysResubscribe on/off; all single cuts, sampled pairs/triples, random plans.",
+         "Trusted: broker model grants requested QoS; fold semantics = MQTT subscription replacement.", "5/C08"),
+ "C12": ("fault_enumeration", "per-message attempt-history monitor (id/content stability, DUP 0 then 1, PUBREL rules) over all write attempts incl. locally failed ones",
+         "All PUBLISH/PUBREL attempts of every message across all connections in single/pair/random cut sweeps, incl. caller-set ids and preset Dup/retain; also the ErrorWithRetry handle replayed on a fresh client (C19 API cases).",
+         "Trusted: DUP defined on attempts; failed local writes are recorded by the transport.", "5/C12"),
+ "C17": ("fault_enumeration", "inbound hand-over monitor: consumed inbound PUBLISH vs handler invocations per connection, with handler replacement history",
+         "Broker model pushes tagged messages right behind every CONNACK, mid-connection and before cuts while Handle is called before Connect, after Connect, replaced or set to nil; single cuts, sampled pairs, random plans; slowed Active callback.",
+         "Trusted: consumed-offset bookkeeping of the transport; the last packet consumed on a connection is not judged.", "5/C17"),
+
  "C04": ("exploration", "reference receiver automaton over a single-timeline trace of a real BaseClient (exhaustive bounded + seeded inbound sequences)",
          "Every inbound sequence over a 9-symbol alphabet up to length 4 (quick) / 6 (thorough), plus seeded random sequences, is played to the real client on an in-memory transport; the monitor compares the timeline of handler enter/exit and PUBACK/PUBREC/PUBCOMP writes with a reference receiver automaton. Exhaustive within the bound, sampled beyond.",
          "Trusted: the reference automaton (written from the statement), mqttref encoder, the Ping barrier argument (serve is sequential).", "5/C04"),
